@@ -524,6 +524,11 @@ theorem C16_lock_protocol_two_level (c : CCfg2) (hc : c.Covers) {s : St} (h : Re
 
 def stp (t : Nat) : Action := .thr t .step
 def steps (t n : Nat) : List Action := List.replicate n (stp t)
+/-- the generated configuration with today's order spelled out (the witnesses below name concrete dict
+    ids and instants; the theorems above hold for any order) -/
+def cfgAsIs : CCfg2 :=
+  { ccfg2 with actSeq := [.front, .front, .front, .front, .proc, .proc, .proc],
+               deactSeq := [.front, .front, .front, .front, .proc, .proc, .proc] }
 /-- enter: acquire, test, 4 + 3 activations, `act []` -/
 def blockIn (t : Nat) : List Action := .thr t .acquire :: steps t 9
 /-- thread 1's cpu_times() misses the front-end dict, HITS the platform dict filled by thread 0's
@@ -535,14 +540,14 @@ def crossActs : List Action :=
 /-- the hypotheses are satisfiable and both hit kinds occur: thread 1 returns a platform-level hit
     (literal form false: read before its call began — finding C16-xthread-hit-predates-call), thread 0 a
     front-end hit of the value thread 1 carried over from the platform dict -/
-example : ((runD ccfg2 St.init crossActs).thr 0).pc = .ret 0 24 ⟨5, 14⟩ (.hitF 3 25) ∧
-    ((runD ccfg2 St.init crossActs).thr 1).pc = .ret 0 18 ⟨5, 14⟩ (.hitP 6 21) ∧
-    intervalOK (runD ccfg2 St.init crossActs) 0 18 ⟨5, 14⟩ (.hitP 6 21) = true ∧
-    literalOK (runD ccfg2 St.init crossActs) 0 18 ⟨5, 14⟩ = false := by decide
+example : ((runD cfgAsIs St.init crossActs).thr 0).pc = .ret 0 24 ⟨5, 14⟩ (.hitF 3 25) ∧
+    ((runD cfgAsIs St.init crossActs).thr 1).pc = .ret 0 18 ⟨5, 14⟩ (.hitP 6 21) ∧
+    intervalOK (runD cfgAsIs St.init crossActs) 0 18 ⟨5, 14⟩ (.hitP 6 21) = true ∧
+    literalOK (runD cfgAsIs St.init crossActs) 0 18 ⟨5, 14⟩ = false := by decide
 
 /-- were `_proc.oneshot_exit()` missing from the deactivations, the lock protocol would fail: after
     the block the platform cache is still there (and the next block would serve stale stat) -/
-def cfgNoProcExit : CCfg2 := { ccfg2 with deactSeq := [.front, .front, .front, .front] }
+def cfgNoProcExit : CCfg2 := { cfgAsIs with deactSeq := [.front, .front, .front, .front] }
 
 theorem C16_two_level_needs_both_deactivations :
     ∃ s, Reach cfgNoProcExit s ∧ s.lock = none ∧ s.attrP ≠ none :=
